@@ -202,6 +202,29 @@ def guard(desc, J: np.ndarray, dname: str, orders=None):
     return None
 
 
+def config_pinv_rank(J, dname):
+    """Number of singular values of the unit rows that torch.linalg.pinv (default rtol = max(m, n) eps: it GROWS WITH THE NUMBER OF
+    COLUMNS) keeps; None when one of them is within a factor 4 of the cut-off (rank decision within rounding distance)."""
+    U = M.unit_rows(J)
+    U = U[np.linalg.norm(U, axis=1) > 0]
+    if U.shape[0] == 0:
+        return 0
+    sv = M.singular_values(U)
+    cut = max(J.shape) * EPS[dname]
+    ratios = sv / sv[0]
+    if ((ratios >= cut / 4) & (ratios <= 4 * cut)).any():
+        return None
+    return int((ratios > cut).sum())
+
+
+def krum_selection(desc, J):
+    """(reference set of selected rows, largest norm among them): with a score gap certified by guard(), Krum's output is the plain
+    average of exactly these rows, so its rounding error is a few eps of the largest SELECTED row - however large the others."""
+    sc = M.krum_scores(J, desc["f"])
+    sel = sorted(int(i) for i in np.argsort(sc, kind="stable")[:desc["k"]])
+    return sel, float(max(np.linalg.norm(J[sel], axis=1).max(), 1e-300))
+
+
 def graddrop_margin_ok(J, U, dname):
     P = R.graddrop_purity(J)
     ok = np.isnan(P) | (np.abs(P - U) > {"float64": 1e-9, "float32": 1e-4}[dname])
